@@ -431,7 +431,34 @@ def _mono(e, env):
         if a is None:
             return None
         return (a[0] ** e.right.value, {k: v * e.right.value for k, v in a[1].items()})
+    if isinstance(e, ast.Call) and last_name(e) in ("reciprocal",) and len(e.args) == 1:
+        # as a real-number expression 1/x (its integer-dtype behaviour is judged separately in R-16.8)
+        a = _mono(e.args[0], env)
+        if a is None or a[0] == 0:
+            return None
+        return (1 / a[0], {k: -v for k, v in a[1].items()})
+    if isinstance(e, ast.Call) and last_name(e) in ("divide", "true_divide", "multiply") and len(e.args) == 2:
+        op = ast.Mult() if last_name(e) == "multiply" else ast.Div()
+        return _mono(ast.BinOp(left=e.args[0], op=op, right=e.args[1]), env)
+    if isinstance(e, ast.Call) and last_name(e) in ("astype", "asarray", "array", "float", "float64") and (e.args or isinstance(e.func, ast.Attribute)):
+        return _mono(e.func.value if last_name(e) == "astype" else e.args[0], env)
     return None
+
+
+def _visibly_float(e):
+    """x.astype(float) / np.asarray(x, dtype=float) / float(x) / a float literal factor."""
+    if isinstance(e, ast.Call):
+        nm = last_name(e)
+        if nm in ("float", "float64"):
+            return True
+        if nm == "astype" and e.args and "float" in ast.unparse(e.args[0]):
+            return True
+        dt = next((k.value for k in e.keywords if k.arg == "dtype"), None)
+        if nm in ("asarray", "array", "asfarray") and (nm == "asfarray" or (dt is not None and "float" in ast.unparse(dt))):
+            return True
+    if isinstance(e, ast.BinOp) and isinstance(e.op, (ast.Mult, ast.Div)):
+        return any(isinstance(x, ast.Constant) and isinstance(x.value, float) for x in (e.left, e.right)) or _visibly_float(e.left) or _visibly_float(e.right)
+    return False
 
 
 KB = {  # Boltzmann constant in the energy unit of the engine (CODATA 2018), relative tolerance 1e-4
@@ -470,6 +497,11 @@ def r168(ctx, impls):
     if sig2 is None:
         raise AnalysisError("R-16.8: sigma_v = sqrt(<product>) not found in draw_maxwellian_velocities")
     (c, pw), st = sig2
+    for x in ast.walk(st.value):
+        if isinstance(x, ast.Call) and last_name(x) == "reciprocal" and x.args and not _visibly_float(x.args[0]):
+            ctx.bad(rid, x, f"draw_maxwellian_velocities computes 1/mass as `{short(x, 40)}`: numpy.reciprocal keeps the dtype of its argument, so for masses given as whole numbers in the .toml file (an integer array) every mass above 1 gives 0 - sigma is 0 and the regenerated velocities of those atoms are exactly zero instead of having variance kT/m (true division `1 / mass` converts to float)", construct="sigma_v through numpy.reciprocal of a possibly integer array")
+        if isinstance(x, ast.BinOp) and isinstance(x.op, ast.FloorDiv):
+            ctx.bad(rid, x, f"draw_maxwellian_velocities uses floor division in sigma_v (`{short(x, 40)}`): the variance of a velocity component is not kT/m", construct="sigma_v with floor division")
     pw = dict(pw)
     pw["beta"] = pw.get("beta", 0) + 1
     pw["mass"] = pw.get("mass", 0) + 1
@@ -670,6 +702,9 @@ def run(ctx):
 
 
 VARIANTS = [
+    B("c16-sigma-reciprocal-of-integer-masses", ENGBASE, "            sigma_v = np.sqrt(kbt * (1 / mass))", "            sigma_v = np.sqrt(kbt * np.reciprocal(mass))", "R-16.8", control=True, why="seeded C16_j"),
+    K("c16-keep-sigma-reciprocal-of-float-masses", ENGBASE, "            sigma_v = np.sqrt(kbt * (1 / mass))", "            sigma_v = np.sqrt(kbt * np.reciprocal(mass.astype(float)))"),
+    K("c16-keep-sigma-quotient", ENGBASE, "            sigma_v = np.sqrt(kbt * (1 / mass))", "            sigma_v = np.sqrt(kbt / mass)"),
     B("c16-momentum-mass-outside-sum", CP2K, "    mom = np.sum(vel * mass, axis=0)", "    mom = mass * np.sum(vel, axis=0)", "R-16.11", control=True, why="seeded C16_i"),
     K("c16-keep-momentum-product-reordered", CP2K, "    mom = np.sum(vel * mass, axis=0)", "    mom = np.sum(mass * vel, axis=0)"),
     B("c16-lammps-new-kinetic-energy-rescaled", LAMMPS, "        kin_new = kinetic_energy(vel, mass)[0]\n        system.config = (conf_out, 0)", "        kin_new = kinetic_energy(vel, mass)[0] * scale**2\n        system.config = (conf_out, 0)", "R-16.10", control=True, why="seeded C16_h"),
